@@ -89,8 +89,11 @@ def liesel_scenario(chk, name):
     with warnings.catch_warnings():
         warnings.simplefilter("ignore")
         used, fresh = Iface(model), Iface(model)
-    direct_model = model._copy_computational_model()
-    state_model = model._copy_computational_model()
+    # reference models are built independently through the public API (not through the private-copy helper the interface itself uses)
+    direct_model = build()
+    state_model = build()
+    if "auto_update=False" in name:
+        direct_model.auto_update = state_model.auto_update = False
     strong_all = M.strong_names(model)
 
     class _MK:
